@@ -694,8 +694,23 @@ pub fn blocking_clause(a: &Analysis, v: &mut Verdict, prop: &str) {
             // the thread's very first command registers its queue under the receiver-list lock:
             // a hand-over wait behind a drain in progress, not waiting for a cycle
             let registers = a.events_of_op(o).any(|(_, x)| x.kind == fastrace::verif::P_REGISTER && x.tid as usize == tid);
-            if registers {
+            // ... but only behind the drain itself: if the lock's owner has already left the
+            // drain (its last event is the end of the cycle's processing, the report call or a
+            // sleep inside it), the caller is waiting for the reporter
+            let owner = e.b as u16;
+            let owner_last = log[..i].iter().rev().find(|x| x.tid == owner).map(|x| x.kind);
+            let behind_reporter = matches!(owner_last, Some(k) if k == fastrace::verif::P_CYCLE_END || k == sim::K_REPORT || k == sim::K_STALL || k == sim::K_SLEEP);
+            if registers && !behind_reporter {
                 v.probe("first_call_lock_handover", 1);
+                continue;
+            }
+            if registers && behind_reporter {
+                v.add(
+                    prop,
+                    &format!("{}.block", prop),
+                    format!("{}:registration-behind-reporter", op_kind(a, o)),
+                    format!("op {} (the thread's first tracing call) had to wait until the collector's report() call returned", a.describe_op(o)),
+                );
                 continue;
             }
         }
